@@ -279,6 +279,12 @@ def pure(fn):
     return fn
 
 
+def effectful(fn):
+    """callee summary with ghost effects: executed on every call (never merged / cached)"""
+    fn.__effectful__ = True
+    return fn
+
+
 def recursive(fn):
     """recursive spec function over the heap: proofs see an uninterpreted function (per heap state) with
     the one-step unfolding of the body assumed at every application; executable natively"""
